@@ -289,6 +289,11 @@ class CaseGen:
                 alg = rng.choice([-257, -35, -36, -37, -65535, 1, 0, -9])
                 ty = rng.choice(["public-key", "public-key", "webauthn.get", ""])
                 ents.insert(rng.randint(0, len(ents)), ('map', [(('text', b"alg"), int_item(alg)), (('text', b"type"), ('text', ty.encode()))]))
+            if rng.random() < 0.5:
+                # more known entries than the list can hold (repeats), in any position: the surplus is dropped
+                for _ in range(rng.randint(1, 3)):
+                    alg = rng.choice(r["known"])
+                    ents.insert(rng.randint(0, len(ents)), ('map', [(('text', b"alg"), int_item(alg)), (('text', b"type"), ('text', r["deLit"].encode()))]))
             return ('arr', ents)
         if "vec" in r:
             return ('arr', [self.wire_item(r["elem"], x, lossy) for x in v[1]])
